@@ -3,6 +3,7 @@ package main
 // SMT script assembly and the solver portfolio.
 
 import (
+	"regexp"
 	"bytes"
 	"context"
 	"crypto/sha256"
@@ -322,6 +323,40 @@ func (e *Engine) solveOne(o *Obl, header string, dir string, quickT, raceT int) 
 	_ = want
 }
 
+// crossCheck puts a discharged obligation to a solver of the other family.
+func (e *Engine) crossCheck(o *Obl, header string, dir string) {
+	script := o.script(header)
+	sum := sha256.Sum256([]byte(script + "x"))
+	base := filepath.Join(dir, hex.EncodeToString(sum[:8]))
+	z3file := base + ".smt2"
+	cvcfile := base + ".cvc5.smt2"
+	os.WriteFile(z3file, []byte(script), 0o644)
+	os.WriteFile(cvcfile, []byte(solverCVC5.pre+script), 0o644)
+	defer os.Remove(z3file)
+	defer os.Remove(cvcfile)
+	var r solveResult
+	if strings.HasPrefix(o.Solver, "cvc5") {
+		r = runSolver(context.Background(), solverZ3New, z3file, 20)
+	} else {
+		r = runSolver(context.Background(), solverCVC5, cvcfile, 20)
+	}
+	o.Cross = r.status
+	if r.status == "sat" {
+		// the first family once more, alone and unhurried, on exactly this text
+		var again solveResult
+		if strings.HasPrefix(o.Solver, "cvc5") {
+			again = runSolver(context.Background(), solverCVC5, cvcfile, 60)
+		} else {
+			again = runSolver(context.Background(), solverZ3New, z3file, 60)
+		}
+		if again.status != "unsat" {
+			// the first verdict does not stand on the standalone text either: not discharged
+			o.Status, o.Output = again.status, again.out
+			o.Cross = "retracted"
+		}
+	}
+}
+
 // getModel re-runs a sat obligation asking for values of the input symbols.
 func (e *Engine) getModel(o *Obl, header string, dir string) string {
 	script := stripQuantified(o.script(header))
@@ -339,9 +374,34 @@ func (e *Engine) getModel(o *Obl, header string, dir string) string {
 			syms = append(syms, "(ext.parsefloat.ok (trStr (vstr "+in.Sym+")))", "(ext.parsefloat.val (trStr (vstr "+in.Sym+")))")
 		}
 	}
+	syms = append(syms, e.structParamTerms(o.fe)...)
 	syms = append(syms, "str_empty")
 	for i := range e.strOrder {
 		syms = append(syms, fmt.Sprintf("strc_%d", i+1))
+	}
+	// the cone-of-influence slice may have dropped the declaration of a symbol we want a value for: put it back
+	{
+		seen := map[string]bool{}
+		var add []string
+		for _, tok := range regexp.MustCompile(`[A-Za-z_][A-Za-z0-9_.!$]*`).FindAllString(strings.Join(syms, " "), -1) {
+			if seen[tok] || !o.fe.declared[tok] {
+				continue
+			}
+			seen[tok] = true
+			d1, d2 := "(declare-fun "+tok+" ", "(declare-const "+tok+" "
+			if strings.Contains(script, d1) || strings.Contains(script, d2) {
+				continue
+			}
+			for _, it := range o.fe.items {
+				if strings.HasPrefix(it.Text, d1) || strings.HasPrefix(it.Text, d2) {
+					add = append(add, it.Text)
+					break
+				}
+			}
+		}
+		if len(add) > 0 {
+			script = strings.Replace(script, "; ---- obligation ", strings.Join(add, "\n")+"\n; ---- obligation ", 1)
+		}
 	}
 	script = "(set-option :produce-models true)\n" + script
 	if len(syms) > 0 {
@@ -351,6 +411,31 @@ func (e *Engine) getModel(o *Obl, header string, dir string) string {
 	file := filepath.Join(dir, "model_"+sanitize(o.Name)+".smt2")
 	if len(file) > 200 {
 		file = file[:200] + ".smt2"
+	}
+	// small models first: bias the slices inside struct parameters towards a size the replay can render
+	var hints []string
+	for _, t := range syms {
+		if strings.HasPrefix(t, "(select H_") && strings.Contains(t, "_0 ") && !strings.Contains(t, "s.ref") {
+			hints = append(hints, t)
+		}
+	}
+	if len(hints) > 0 {
+		hs := ""
+		for _, t := range hints {
+			// only slice-sorted fields have s.len; others make the hinted script ill-sorted and are skipped below
+			if strings.Contains(strings.Join(syms, " "), "(s.ref "+t+")") {
+				hs += "(assert (<= (s.len " + t + ") 6))\n"
+			}
+		}
+		if hs != "" {
+			hfile := file + ".small.smt2"
+			os.WriteFile(hfile, []byte(strings.Replace(script, "(check-sat)\n", hs+"(check-sat)\n", 1)), 0o644)
+			rh := runSolver(context.Background(), solverZ3New, hfile, 20)
+			os.Remove(hfile)
+			if rh.status == "sat" && !strings.Contains(rh.out, "(error") {
+				return rh.out
+			}
+		}
 	}
 	os.WriteFile(file, []byte(script), 0o644)
 	defer os.Remove(file)
